@@ -23,6 +23,7 @@ LEVEL_TEXT = (
     "definitions read back exactly. Random longer sequences in addition."
 )
 LEVEL_NOTE = "The automata are written from the documentation; acceptance of well-formed calls is not demanded by the property (counted as wellformed_rejected, never alarmed)."
+LEVEL_TEXT += ' The architecture vocabulary is repeated over module names that change under NFKC or differ only in case.'
 RULE = "an evaluation = one builder call observed by the trace monitor; a case = one call sequence; non-trivial = sequence containing at least one violating call or >= 2 accepted definitions; distinct = distinct sequences"
 ASSUMPTIONS = ["module names are multi-character so that the string/list distinction is observable", "a rejected call leaves the builder unchanged (sequences are pruned at the first raise)"]
 SHARD_TIMEOUT = {"quick": 900, "thorough": 3000}
